@@ -8,7 +8,7 @@ W=$(mktemp -d /tmp/seedcheck.XXXXXX); rmdir "$W"
 git -C /repo worktree add --detach "$W" HEAD >/dev/null 2>&1 || { echo "cannot create worktree"; exit 2; }
 O=$(mktemp -d /tmp/seedout.XXXXXX)
 trap 'git -C /repo worktree remove --force "$W" >/dev/null 2>&1; rm -rf "$W" "$O"' EXIT
-(cd "$W" && git apply "$D/patch.diff") || { echo "patch does not apply"; exit 3; }
+(cd "$W" && git apply "$D/patch.diff" 2>/dev/null || git apply --3way "$D/patch.diff") || { echo "patch does not apply"; exit 3; }
 for p in "$@"; do
   out=$(cd /verif && VERIF_REPO=$W VERIF_OUT=$O ./check $p $tier 2>&1); rc=$?
   echo "$p $tier -> exit $rc"
